@@ -205,9 +205,19 @@ def run_case(case):
                 os.kill(srv.pid, signal.SIGHUP)
                 _wait(lambda: os.path.exists(new_path) and renv.children(srv.pid) and not (set(renv.children(srv.pid)) & set(gen0)), 10)
                 time.sleep(0.8)
+                orig_path = srv.sockpath
                 srv.addr = new_path
                 srv.sockpath = new_path
-                check_generation("reloaded-rebound", srv.pid, new_path)
+                gen1 = check_generation("reloaded-rebound", srv.pid, new_path)
+                if not vio:
+                    # and back again: the first path still holds the socket file the reload left behind
+                    srv.write_conf(["bind = 'unix:%s'" % orig_path])
+                    os.kill(srv.pid, signal.SIGHUP)
+                    _wait(lambda: renv.children(srv.pid) and not (set(renv.children(srv.pid)) & set(gen1)), 10)
+                    time.sleep(0.8)
+                    srv.addr = orig_path
+                    srv.sockpath = orig_path
+                    check_generation("reloaded-rebound-back", srv.pid, orig_path)
             elif h == "usr2":
                 os.kill(srv.pid, signal.SIGUSR2)
                 pf2 = srv.pidfile + ".2"
